@@ -1397,6 +1397,18 @@ package server
 //@   at call FlushDB assert C10.flush.leader-only: self.slock.state == STATE_LEADER
 //@   modifies all
 
+// C18: on a node that is not the leader a connection's wills are forwarded to the leader when the connection ends; wills that could NOT
+// be forwarded (no way to the leader - the node may have become leader itself) are still registered when the connection's own protocol is
+// closed, which then runs them
+//@ func (*TransparencyBinaryServerProtocol).Close
+//@   requires self != nil && self.serverProtocol != nil
+//@   at call BinaryServerProtocol.Close assert C18.transparency.wills-kept: implies(!old(self.closed) && calls(Pop) == 0, self.serverProtocol.willCommands == old(self.serverProtocol.willCommands))
+//@   modifies all
+//@ func (*TransparencyTextServerProtocol).Close
+//@   requires self != nil && self.serverProtocol != nil
+//@   at call TextServerProtocol.Close assert C18.transparency.wills-kept: implies(!old(self.closed) && calls(Pop) == 0, self.serverProtocol.willCommands == old(self.serverProtocol.willCommands))
+//@   modifies all
+
 // C18: a connection whose first command fails still ends like any other connection: the protocol object created for it
 // (which may already hold wills registered by that first command) is closed before the accept path gives up on it
 //@ func (*Server).checkProtocol
